@@ -1,4 +1,6 @@
 import DimodModel.Pack
+import DimodModel.CooText
+import DimodModel.BytesDoc
 import DimodModel.Wire
 open Wire SSM Pack
 
@@ -144,6 +146,20 @@ def step (line : String) : String :=
   | ["tobytes", size, signed, vals] => match size.toNat?, (splitOr "," vals).mapM (·.toInt?) with
     | some sz, some vs => "ok " ++ listOr "," toString (tobytesInt ⟨sz, signed = "1"⟩ vs)
     | _, _ => "bad-op"
+  | ["bytesdoc", size, signed, shape, vals, ub, drop] =>
+    -- the whole dict of `serialize_ndarray(arr, use_bytes)` and what `deserialize_ndarray` makes of it (after dropping `drop` trailing bytes)
+    match size.toNat?, parseNats? shape, (splitOr "," vals).mapM (·.toInt?), drop.toNat? with
+    | some sz, some sh, some vs, some dr =>
+      let doc := serializeArrDoc ⟨⟨sz, signed = "1"⟩, sh, vs⟩ (ub = "1")
+      let doc' : ArrDoc := match doc.data with
+        | .bytes b => { doc with data := .bytes (b.take (b.length - dr)) }
+        | .list _ => doc
+      let payload := match doc.data with | .bytes b => "B" ++ listOr "," toString b | .list v => "L" ++ showPV v
+      let back := match deserializeArrDoc doc' with
+        | some a => "some " ++ listOr "," toString a.shape ++ " " ++ listOr "," toString a.data
+        | none => "none"
+      s!"ok type={doc.type} size={doc.dataType.size} signed={if doc.dataType.signed then 1 else 0} shape={listOr "," toString doc.shape} use_bytes={if doc.useBytes then 1 else 0} data={payload} back={back}"
+    | _, _, _, _ => "bad-op"
   | ["frombytes", size, signed, count, bytes] => match size.toNat?, count.toNat?, parseNats? bytes with
     | some sz, some c, some bs => "ok " ++ listOr "," toString (frombufferInt ⟨sz, signed = "1"⟩ bs c)
     | _, _, _ => "bad-op"
@@ -185,6 +201,26 @@ def step (line : String) : String :=
         (quad.find? fun t => (t.1 = u ∧ t.2.1 = v) ∨ (t.1 = v ∧ t.2.1 = u)).map fun t => t.2.2.floor
       "ok " ++ listOr ";" (fun t : Nat × Nat × Int => s!"{t.1}:{t.2.1}:{t.2.2}") (cooDump labels linf nzf quadf)
     | _, _, _ => "bad-op"
+  | ["coodump", hdr, vt, labels, lin, quad] => match parseVT? vt, parseNats? labels, parseRats? lin, parseTriples? quad with
+    -- the text `coo.dumps(bqm, vartype_header=hdr)` as the text-level model writes it (hex of UTF-8)
+    | some vt, some labels, some lin, some quad =>
+      let linf (u : Nat) : Rat := lin.getD (labels.idxOf u) 0
+      let quadf (u v : Nat) : Option Rat :=
+        (quad.find? fun t => (t.1 = u ∧ t.2.1 = v) ∨ (t.1 = v ∧ t.2.1 = u)).map fun t => t.2.2
+      "ok " ++ toHex (String.ofList (CooText.dumps (hdr = "1") vt labels linf quadf)) ++ "."
+    | _, _, _, _ => "bad-op"
+  | ["cooload", arg, hex] =>
+    -- `coo.loads(text, vartype=arg)`: vartype, variables in order of first appearance, accumulated biases
+    let a := if arg = "-" then none else parseVT? arg
+    let text := (hexString (hex.toList.filter (· != '.'))).toList
+    (match CooText.loads a text with
+     | none => "err"
+     | some (vt, calls) =>
+       let vars := CooText.varsOf calls
+       let pairs := ((calls.filter fun x => x.1 ≠ x.2.1).map fun x => (min x.1 x.2.1, max x.1 x.2.1)).eraseDups
+       s!"ok {match vt with | .spin => "SPIN" | .binary => "BINARY" | _ => "?"} " ++ listOr "," toString vars ++ " "
+         ++ listOr "," (fun u => showRat (CooText.linOf calls u)) vars ++ " "
+         ++ listOr ";" (fun p : Nat × Nat => s!"{p.1}:{p.2}:{showRat (CooText.quadOf calls p.1 p.2)}") pairs)
   | _ => "bad-op"
 
 partial def loop (h : IO.FS.Stream) : IO Unit := do
